@@ -96,6 +96,16 @@ pub async fn dump(mel: &MainEventLoop) -> Value {
 			"signature_algorithm": a.current_key.signature_algorithm.to_string(),
 			"endpoints": epn, "file_hooks": a.file_manager.hooks.iter().map(hook_json).collect::<Vec<Value>>(),
 			"env": sorted_env(&a.file_manager.env),
+			// the account's own FileManager (main_event_loop.rs:53-75), C13
+			"account_directory": a.file_manager.account_directory,
+			"cert_file_mode": a.file_manager.cert_file_mode,
+			"cert_file_owner": a.file_manager.cert_file_owner,
+			"cert_file_group": a.file_manager.cert_file_group,
+			"cert_file_ext": a.file_manager.cert_file_ext,
+			"pk_file_mode": a.file_manager.pk_file_mode,
+			"pk_file_owner": a.file_manager.pk_file_owner,
+			"pk_file_group": a.file_manager.pk_file_group,
+			"pk_file_ext": a.file_manager.pk_file_ext,
 			"has_eab": a.external_account.is_some()}));
 	}
 	json!({"certificates": certs, "endpoints": eps, "accounts": accs})
